@@ -3,6 +3,7 @@ package rules
 import (
 	"fmt"
 	"go/token"
+	"go/types"
 	"regexp"
 	"strings"
 
@@ -152,6 +153,82 @@ func runC15(c *core.Ctx) core.Meta {
 	// R15.3 capacity
 	st3 := c.Rule("R15.3", "a transaction is inserted only on paths that tested the capacity predicate false; the predicate compares transactions.Len() >= bufferSize", 2)
 	capPred := map[*ssa.Function]bool{}
+	// The number of transactions held is transactions.Len(), or the length of a map of the reorder
+	// buffer that holds exactly the listed transactions: every insertion into the map sits in a
+	// function that pushes onto the list, every deletion in a function that removes from the list,
+	// and the map is replaced only where the list is re-initialised.
+	fnHasList := func(fn *ssa.Function, names ...string) bool {
+		for _, b := range fn.Blocks {
+			for _, in := range b.Instrs {
+				if isListCall(in, names...) {
+					return true
+				}
+			}
+		}
+		return false
+	}
+	reportedMeasure := map[string]bool{}
+	mapInSync := map[string]string{} // field id -> "" (in sync) or the reason it is not
+	syncOf := func(id string) string {
+		if why, ok := mapInSync[id]; ok {
+			return why
+		}
+		why := ""
+		p.Instrs(func(fn *ssa.Function, in ssa.Instruction) {
+			if why != "" {
+				return
+			}
+			switch x := in.(type) {
+			case *ssa.MapUpdate:
+				if f := core.LoadedField(x.Map); f != nil && core.ShortFieldID(f) == id && !fnHasList(fn, "PushBack", "PushFront", "InsertBefore", "InsertAfter") {
+					why = core.FuncName(fn) + " inserts into it without pushing onto the transaction list"
+				}
+			case *ssa.Call:
+				if bi, ok := x.Call.Value.(*ssa.Builtin); ok && bi.Name() == "delete" && len(x.Call.Args) == 2 {
+					if f := core.LoadedField(x.Call.Args[0]); f != nil && core.ShortFieldID(f) == id && !fnHasList(fn, "Remove") {
+						why = core.FuncName(fn) + " deletes from it while the transaction stays in the list"
+					}
+				}
+			case *ssa.Store:
+				if f := core.FieldOfAddr(x.Addr); f != nil && core.ShortFieldID(f) == id && fn.Name() != "init" && !fnHasList(fn, "Init") && !strings.HasPrefix(fn.Name(), "Build") && !strings.HasPrefix(fn.Name(), "Make") && !strings.HasPrefix(fn.Name(), "New") {
+					why = core.FuncName(fn) + " replaces it without re-initialising the transaction list"
+				}
+			}
+		})
+		mapInSync[id] = why
+		return why
+	}
+	measureOf := func(v ssa.Value) string {
+		if prov.Of(v) == "recv.transactions.Len()" {
+			return "recv.transactions.Len()"
+		}
+		call, ok := v.(*ssa.Call)
+		if !ok {
+			return ""
+		}
+		bi, ok := call.Call.Value.(*ssa.Builtin)
+		if !ok || bi.Name() != "len" || len(call.Call.Args) != 1 {
+			return ""
+		}
+		f := core.LoadedField(call.Call.Args[0])
+		if f == nil || !strings.HasPrefix(core.ShortFieldID(f), "ReorderBuffer.") {
+			return ""
+		}
+		if _, isMap := f.Type().Underlying().(*types.Map); !isMap {
+			return ""
+		}
+		id := core.ShortFieldID(f)
+		if why := syncOf(id); why != "" {
+			if reportedMeasure[id] {
+				return ""
+			}
+			reportedMeasure[id] = true
+			st3.Ob(false)
+			c.ReportAt("R15.3", call.Parent(), call.Pos(), "capacity-measure:"+f.Name(), "the capacity test counts len("+f.Name()+"), which does not hold exactly the transactions in the buffer: "+why+"; transactions that are still queued are not counted and the buffer accepts more than its capacity")
+			return ""
+		}
+		return "recv.transactions.Len()"
+	}
 	for _, fn := range p.Funcs {
 		for _, b := range fn.Blocks {
 			for _, in := range b.Instrs {
@@ -164,6 +241,12 @@ func runC15(c *core.Ctx) core.Meta {
 					continue
 				}
 				x, y := prov.Of(bo.X), prov.Of(bo.Y)
+				if m := measureOf(bo.X); m != "" {
+					x = m
+				}
+				if m := measureOf(bo.Y); m != "" {
+					y = m
+				}
 				isLen := func(s string) bool { return s == "recv.transactions.Len()" }
 				isCap := func(s string) bool { return s == "recv.bufferSize" }
 				if !(isLen(x) && isCap(y)) && !(isLen(y) && isCap(x)) {
@@ -196,6 +279,12 @@ func runC15(c *core.Ctx) core.Meta {
 	// the same comparison used directly as a branch condition
 	directCap := CmpCut(func(_ *core.Node, op token.Token, x, y ssa.Value) int {
 		px, py := prov.Of(x), prov.Of(y)
+		if m := measureOf(x); m != "" {
+			px = m
+		}
+		if m := measureOf(y); m != "" {
+			py = m
+		}
 		if px == "recv.transactions.Len()" && py == "recv.bufferSize" {
 			switch op {
 			case token.GEQ, token.EQL:
@@ -218,6 +307,12 @@ func runC15(c *core.Ctx) core.Meta {
 	p.Instrs(func(fn *ssa.Function, in ssa.Instruction) {
 		if bo, ok := in.(*ssa.BinOp); ok && len(capPred) == 0 {
 			px, py := prov.Of(bo.X), prov.Of(bo.Y)
+			if m := measureOf(bo.X); m != "" {
+				px = m
+			}
+			if m := measureOf(bo.Y); m != "" {
+				py = m
+			}
 			if (px == "recv.transactions.Len()" && py == "recv.bufferSize") || (py == "recv.transactions.Len()" && px == "recv.bufferSize") {
 				hasDirect = true
 				st3.Instances++
